@@ -81,6 +81,13 @@ def catalogue():
     add("file-duplicate-section", "pair", P + "\n[Pair]\nNe-Ne : as.zero\n", "cfg", "duplicate section")
     add("file-unresolved-placeholder", "pair", sub(P, "as.buck 1000.0 0.3 32.0", "as.buck ${nosuchvariable} 0.3 32.0"), "cfg", "unresolvable ${placeholder}")
     add("file-unresolved-section-placeholder", "pair", sub(P, "as.buck 1000.0 0.3 32.0", "as.buck ${Nowhere:A} 0.3 32.0"), "cfg", "unresolvable ${SECTION:KEY}")
+    # a '$' that does not open a ${...} reference (braces forgotten, stray trailing '$'), in every kind of section that is read (seed C16_6)
+    add("file-braceless-placeholder-pair", "pair", sub(P, "as.buck 1000.0 0.3 32.0", "as.buck 1000.0 $rho 32.0"), "cfg", "'$name' without braces in [Pair]")
+    add("file-trailing-dollar-pair", "pair", sub(P, "as.buck 1000.0 0.3 32.0", "as.buck 1000.0 0.3 32.0 $"), "cfg", "stray trailing '$' in [Pair]")
+    add("file-braceless-placeholder-tabulation", "pair", sub(P, "nr : 8", "nr : $npoints"), "cfg", "'$name' without braces in [Tabulation]")
+    add("file-braceless-placeholder-form", "pair", sub(P, "myform(r,a) = a*exp(-r)", "myform(r,a) = a*exp(-r)*$k"), "cfg", "'$name' without braces in [Potential-Form]")
+    add("file-braceless-placeholder-table", "pair", sub(P, "x : 0 1 2 3 4", "x : $xs"), "cfg", "'$name' without braces in [Table-Form]")
+    add("file-braceless-placeholder-embed", "eam", sub(E, "Cu : as.sqrt 2.0", "Cu : as.sqrt $one"), "cfg", "'$name' without braces in [EAM-Embed]")
     add("file-bad-placeholder-syntax", "pair", sub(P, "as.buck 1000.0 0.3 32.0", "as.buck ${unclosed 0.3 32.0"), "cfg", "malformed placeholder")
     # ---- sections
     add("pair-section-missing", "pair", TAB_PAIR + "[Potential-Form]\nmyform(r,a) = a*exp(-r)\n", "cfg", "[Pair] missing for a pair target")
